@@ -27,7 +27,7 @@ class C14(BaseCheck):
           'real readAll loops; the server side is the Thrift library\'s Processor which must decode the '
           'same method/args; every 3rd value case then issues 2-7 concurrent calls on a fresh client against a slow '
           'server (decoded requests must be exactly the calls made, each caller gets its own reply); every 4th case also '
-          'calls a same-named method of two services that extend the same base service (different argument structs) '
+          '(interfaces up to three levels deep: LeafService extends ExtService extends VerifService; 4% of the cases carry a value of more than a mebibyte) calls a same-named method of two services that extend the same base service (different argument structs) '
           'from one process, in a seeded order; every 3rd case ends with 3-8 calls of one method on the same client whose replies alternate between value / void success and declared exception; in 40% of the cases a single send() accepts only 1-200 bytes. non-trivial = at least 2 chunkings completed; distinct by (interface, '
           'method, value classes, outcome kind, chunking class)')
   ANCHORS = ('scales.thrift.serializer:MessageSerializer.SerializeThriftCall',
@@ -35,7 +35,7 @@ class C14(BaseCheck):
              'scales.varz:VarzSocketWrapper.readAll')
   REQUIRED_ANCHORS = ANCHORS
   REQUIRED_CLASSES = ('outcome:value', 'outcome:declared-exc', 'outcome:declared-exc-not-first', 'outcome:app-exc', 'outcome:void',
-                      'iface:hello', 'iface:verif', 'iface:ext', 'chunk:1cut', 'chunk:2cut', 'chunk:kcut',
+                      'iface:hello', 'iface:verif', 'iface:ext', 'iface:leaf', 'chunk:1cut', 'chunk:2cut', 'chunk:kcut',
                       'text:nonascii', 'text:empty', 'concurrent', 'two-services', 'short-sends', 'alternating-outcomes',
                       'text:over-a-mebibyte')
   ASSUMPTIONS = ('interfaces: the repository\'s hello.Hello plus a hand-written module in the shape the '
@@ -63,9 +63,12 @@ class C14(BaseCheck):
     if k == 'hi':
       s = gen_text(rng)
       return 'hello', 'hi', (s,), {}, ('value', 'hi:' + s)
-    iface = rng.choice(['verif', 'ext'])
+    iface = rng.choice(['verif', 'ext', 'leaf'])      # leaf: a service two levels below the base one
     if k == 'extra':
       s = gen_text(rng)
+      if rng.random() < 0.5:
+        m_ = rng.choice(['extra', 'leaf'])
+        return 'leaf', m_, (s,), {}, ('value', m_ + ':' + s)
       return 'ext', 'extra', (s,), {}, ('value', 'extra:' + s)
     if k == 'huge':
       # values of more than a mebibyte of UTF-8: as a plain string, in a declared exception
@@ -83,6 +86,11 @@ class C14(BaseCheck):
       return iface, 'echo', (s,), {}, ('value', 'echo:' + s)
     if k == 'appexc':
       s = 'APPEXC:' + gen_text(rng)
+      if rng.random() < 0.3:
+        # a reply that carries neither a value nor an exception for a non-void method: the Thrift
+        # library's own client raises its 'unknown result' application exception for it
+        s = 'NONE:' + gen_text(rng)
+        return iface, 'echo', (s,), {}, ('app', 'unknown result')
       return iface, 'echo', (s,), {}, ('app', 'app:' + s)
     if k == 'add':
       a, b = rng.randint(-2**31, 2**31 - 1), rng.randint(-2**62, 2**62)
@@ -151,6 +159,9 @@ class C14(BaseCheck):
       Iface, pm = Hello.Iface, Hello
     elif iface_kind == 'verif':
       Iface, pm = VerifService.Iface, ExtService
+    elif iface_kind == 'leaf':
+      from vlib.gen.verifsvc import LeafService
+      Iface, pm = LeafService.Iface, LeafService
     else:
       Iface, pm = ExtService.Iface, ExtService
     plan = {'chunks': None, 'delay': 0.001}
